@@ -10,7 +10,11 @@ package beacon
 //@   props C15
 //@   pure
 //@   requires beaHighestSet(bea_store) ==> len(bea_store[kBHighest]) == 8
+//@   requires forall i int, t int :: {bea_store[kTs(i, t)]} tsHas(bea_store, i, t) ==> 0 <= t && t < 2^64 && tsGet(bea_store, i, t).TimestampId == t
 //@   let recs := gs.RegisteredBeacons
+//@   ensures @timestamps_as_stored forall j int, b int :: {recs[j].Timestamps[b]} 0 <= j && j < len(recs) && 0 <= b && b < len(recs[j].Timestamps) ==> tsHas(bea_store, recs[j].Beacon.BeaconId, recs[j].Timestamps[b].Id) && recs[j].Timestamps[b] == tsExp(tsGet(bea_store, recs[j].Beacon.BeaconId, recs[j].Timestamps[b].Id))
+//@   ensures @timestamps_ascending_and_capped forall j int :: {recs[j]} 0 <= j && j < len(recs) ==> len(recs[j].Timestamps) <= 20000 && forall a int, b int :: {recs[j].Timestamps[a], recs[j].Timestamps[b]} 0 <= a && a < b && b < len(recs[j].Timestamps) ==> recs[j].Timestamps[a].Id < recs[j].Timestamps[b].Id
+//@   ensures @newest_timestamps_without_gaps forall j int, t uint64 :: {bea_store[kTs(recs[j].Beacon.BeaconId, t)]} 0 <= j && j < len(recs) && tsHas(bea_store, recs[j].Beacon.BeaconId, t) && (len(recs[j].Timestamps) < 20000 || t >= recs[j].Timestamps[0].Id) ==> exists b int :: 0 <= b && b < len(recs[j].Timestamps) && recs[j].Timestamps[b].Id == t
 //@   ensures @counters_match_exported_records forall j int :: {recs[j]} 0 <= j && j < len(recs) ==> recs[j].Beacon.NumInState == len(recs[j].Timestamps) && recs[j].Beacon.FirstIdInState == (len(recs[j].Timestamps) > 0 ? recs[j].Timestamps[0].Id : 0)
 //@   ensures @limit_as_stored forall j int :: {recs[j]} 0 <= j && j < len(recs) && blimHas(bea_store, recs[j].Beacon.BeaconId) ==> recs[j].InStateLimit == blimGet(bea_store, recs[j].Beacon.BeaconId)
 //@   ensures @params beaParamsSet(bea_store) ==> gs.Params == beaParams(bea_store)
@@ -19,6 +23,9 @@ package beacon
 //@   loop 0: invariant forall j int :: {records[j]} 0 <= j && j < len(records) ==> records[j].Beacon.NumInState == len(records[j].Timestamps) && records[j].Beacon.FirstIdInState == (len(records[j].Timestamps) > 0 ? records[j].Timestamps[0].Id : 0)
 //@   loop 0: invariant forall j int :: {records[j]} 0 <= j && j < len(records) ==> records[j].Beacon.BeaconId == beacons[j].BeaconId && records[j].Beacon.Owner == beacons[j].Owner && records[j].Beacon.LastTimestampId == beacons[j].LastTimestampId && records[j].Beacon.Moniker == beacons[j].Moniker
 //@   loop 0: invariant forall j int :: {records[j]} 0 <= j && j < len(records) && blimHas(bea_store, records[j].Beacon.BeaconId) ==> records[j].InStateLimit == blimGet(bea_store, records[j].Beacon.BeaconId)
+//@   loop 0: invariant forall j int, b int :: {records[j].Timestamps[b]} 0 <= j && j < len(records) && 0 <= b && b < len(records[j].Timestamps) ==> tsHas(bea_store, records[j].Beacon.BeaconId, records[j].Timestamps[b].Id) && records[j].Timestamps[b] == tsExp(tsGet(bea_store, records[j].Beacon.BeaconId, records[j].Timestamps[b].Id))
+//@   loop 0: invariant forall j int :: {records[j]} 0 <= j && j < len(records) ==> len(records[j].Timestamps) <= 20000 && forall a int, b int :: {records[j].Timestamps[a], records[j].Timestamps[b]} 0 <= a && a < b && b < len(records[j].Timestamps) ==> records[j].Timestamps[a].Id < records[j].Timestamps[b].Id
+//@   loop 0: invariant forall j int, t uint64 :: {bea_store[kTs(records[j].Beacon.BeaconId, t)]} 0 <= j && j < len(records) && tsHas(bea_store, records[j].Beacon.BeaconId, t) && (len(records[j].Timestamps) < 20000 || t >= records[j].Timestamps[0].Id) ==> exists b int :: 0 <= b && b < len(records[j].Timestamps) && records[j].Timestamps[b].Id == t
 
 // Genesis import (C15): on a store without registrations, limits and timestamps, every registration of the document
 // is stored byte-for-byte as given together with its limit, every listed timestamp is stored under (id, timestamp id)
